@@ -151,7 +151,19 @@ var c02GenericPrelude = []fo.Decl{
 // structured type of its own (slice / tuple / function) and parameters are unified with
 // each other late - and returns everything it bound in nested pairs. Statements that the
 // independent inference rejects are not added, so the function is well typed by construction.
-func c02Shape(rng *core.Rand, name string) *fo.FuncDef {
+func c02Shape(rng *core.Rand, name string) *fo.FuncDef { return c02ShapeOpt(rng, name, false) }
+
+// c02ShapeOpt with ill = true inserts one or two statements that give a variable two
+// disagreeing constraints in one step (the rest stays well typed without them): C05 uses
+// these to see that fc's verdict and output on conflicting constraints do not depend on an
+// enumeration order.
+func c02ShapeOpt(rng *core.Rand, name string, ill bool) *fo.FuncDef {
+	illLeft := 0
+	if ill {
+		illLeft = 1 + rng.Intn(2)
+	}
+	illStmts := map[int][]fo.Stmt{} // position among the well-typed statements -> conflicting statements placed before it
+	var illLets []string
 	k := 2 + rng.Intn(3)
 	f := &fo.FuncDef{Name: name, Pure: true}
 	var names []string
@@ -208,6 +220,36 @@ func c02Shape(rng *core.Rand, name string) *fo.FuncDef {
 		default:
 			e = call("slice.Concat", &fo.SliceLit{Elems: []fo.Expr{v(x), v(y)}})
 		}
+		if illLeft > 0 && rng.Chance(0.3) {
+			// a statement that gives one variable two disagreeing constraints in a single step
+			lits := []fo.Expr{&fo.IntLit{V: 1}, &fo.StrLit{V: "a"}, &fo.BoolLit{V: true}}
+			li := rng.Intn(3)
+			lit, lit2 := lits[li], lits[(li+1+rng.Intn(2))%3]
+			pair := func(a, b fo.Expr) fo.Expr { return &fo.TupleLit{Elems: []fo.Expr{a, b}} }
+			one := func(a fo.Expr) fo.Expr { return &fo.SliceLit{Elems: []fo.Expr{a}} }
+			// x twice, or two parameters already unified by an earlier statement
+			a, bb := v(x), v(x)
+			if rng.Chance(0.3) {
+				bb = v(y)
+			}
+			switch rng.Intn(5) {
+			case 0:
+				e = &fo.SliceLit{Elems: []fo.Expr{pair(a, bb), pair(lit, lit2)}}
+			case 1:
+				e = &fo.BinOp{Op: "=", L: pair(a, bb), R: pair(lit, lit2)}
+			case 2:
+				e = call("slice.PushHead", pair(a, bb), one(pair(lit, lit2)))
+			case 3:
+				e = call("slice.Append", one(pair(a, bb)), one(pair(lit, lit2)))
+			default:
+				e = call("slice.PushLast", pair(lit, lit2), one(pair(bb, a)))
+			}
+			illLeft--
+			ln := fmt.Sprintf("w%d", len(illLets))
+			illStmts[len(stmts)] = append(illStmts[len(stmts)], &fo.Let{Name: ln, E: e})
+			illLets = append(illLets, ln)
+			continue
+		}
 		ln := fmt.Sprintf("v%d", len(lets))
 		cand := append(append([]fo.Stmt{}, stmts...), &fo.Let{Name: ln, E: e})
 		if typable(cand, v(ln)) {
@@ -220,6 +262,19 @@ func c02Shape(rng *core.Rand, name string) *fo.FuncDef {
 	var res fo.Expr = v(lets[len(lets)-1])
 	for i := len(lets) - 2; i >= 0; i-- {
 		res = &fo.TupleLit{Elems: []fo.Expr{v(lets[i]), res}}
+	}
+	if len(illLets) > 0 {
+		var all []fo.Stmt
+		for i := 0; i <= len(stmts); i++ {
+			all = append(all, illStmts[i]...)
+			if i < len(stmts) {
+				all = append(all, stmts[i])
+			}
+		}
+		stmts = all
+		for _, w := range illLets {
+			res = &fo.TupleLit{Elems: []fo.Expr{v(w), res}}
+		}
 	}
 	f.Body = &fo.Block{Stmts: stmts, Result: res}
 	return f
